@@ -67,6 +67,10 @@ CLAIMED = {
             "For each enumerated type set / insertion-order pair / jit history z3 proves each loss equals its definition for ALL predictions and targets, "
             "is 0 on equal arguments, >= 0, invariant under every g, and the per-step losses sum to the total.",
             "Reals; batch<=2, steps<=2(3), tiny images; reduce='max' decided under a strict-maximum assumption.", "4/C18"),
+    "C19": (XH, "CrossHair (per-path z3) on the real TrainLoss/ValLoss/EpochStop.stop: bounded symbolic histories vs. a reference state machine + one inductive step from an arbitrary state",
+            "CrossHair confirms over all paths that for symbolic loss histories (len<=4), patience and min_delta the real conditions stop at exactly the "
+            "specified epoch and hand back the best model, for float and non-float scalar representations; the inductive step covers any history length.",
+            "Bounds: len<=4, patience<=3 (5), losses in [0,100]; non-float scalars modelled by a wrapper + float() stub, validated with genuine np.float32/jax scalars.", "4/C19"),
 }
 
 NOT_YET = {}
